@@ -18,7 +18,8 @@ E == Trace[l]
 TraceInit == Init /\ l = 1
 
 Reset ==
-  /\ cfg' = [srv |-> E.msg, cli |-> E.pay, rawcli |-> (E.res = "rawcli"), rawsrv |-> (E.res = "rawsrv"), ncli |-> E.n]
+  /\ cfg' = [srv |-> E.msg, cli |-> E.pay, rawcli |-> (E.res = "rawcli"), rawsrv |-> (E.res = "rawsrv"), ncli |-> E.n,
+             relay |-> IF E.x = "pd" THEN "px" ELSE ""]
   /\ phase' = "run" /\ now' = 0
   /\ calls' = <<>> /\ byId' = <<>> /\ hi' = 0 /\ gaps' = {}
   /\ cw' = <<>> /\ nSR' = 0 /\ sw' = <<>> /\ nCR' = 0
